@@ -124,8 +124,12 @@ _SIMPLE = (int, float, complex, str, bytes, bool, type(None), type(Ellipsis))
 _NEG = {ast.In: ast.NotIn, ast.NotIn: ast.In, ast.Is: ast.IsNot, ast.IsNot: ast.Is}
 
 
+_FOLD_ELLIPSIS = [False]
+
+
 def _is_const(n):
-    return isinstance(n, ast.Constant) and n.value is not Ellipsis      # `...` may be the placeholder: never folded
+    # in a printed text `...` may be the placeholder: it is folded only on request
+    return isinstance(n, ast.Constant) and (n.value is not Ellipsis or _FOLD_ELLIPSIS[0])
 
 
 def _closed(n):
@@ -211,9 +215,13 @@ class _Norm(ast.NodeTransformer):
         return ast.BoolOp(op=n.op, values=out)
 
 
-def norm(n):
+def norm(n, fold_ellipsis=False):
     import copy
-    return _Norm().visit(copy.deepcopy(n))
+    _FOLD_ELLIPSIS[0] = fold_ellipsis
+    try:
+        return _Norm().visit(copy.deepcopy(n))
+    finally:
+        _FOLD_ELLIPSIS[0] = False
 
 
 OPQ_TEXTS = None
@@ -255,35 +263,48 @@ def sem_equal(s, c):
 # symbolic operands: every operator works and the value tells which operations were applied in which order
 
 SYMH = r'''
+def _r(o):
+    """repr without addresses"""
+    if type(o).__name__ in ("function", "cython_function_or_method"):
+        try: return "<lambda->%s>" % _r(o())
+        except Exception as e: return "<lambda raises %s>" % type(e).__name__
+    if type(o) is tuple: return "(%s)" % "".join(_r(x) + "," for x in o)
+    if type(o) is list: return "[%s]" % ",".join(_r(x) for x in o)
+    if type(o) is dict: return "{%s}" % ",".join(_r(k) + ":" + _r(v) for k, v in o.items())
+    if type(o) is slice: return "slice(%s,%s,%s)" % (_r(o.start), _r(o.stop), _r(o.step))
+    return repr(o)
 class Sym(object):
-    def __init__(self, s): self.s = s
+    def __init__(self, s, truth=True): self.s = s; self.truth = truth
     def __repr__(self): return self.s
-    def __bool__(self): return True
+    def __bool__(self): return self.truth
     def __hash__(self): return hash(self.s)
     def __getattr__(self, n):
         if n.startswith('__'): raise AttributeError(n)
         return Sym("(%s.%s)" % (self.s, n))
-    def __getitem__(self, i): return Sym("(%s[%r])" % (self.s, i))
-    def __call__(self, *a, **k): return Sym("(%s(%r,%r))" % (self.s, a, sorted(k.items())))
+    def __getitem__(self, i): return Sym("(%s[%s])" % (self.s, _r(i)))
+    def __call__(self, *a, **k): return Sym("(%s(%s,%s))" % (self.s, _r(a), _r(sorted(k.items()))))
     def __iter__(self): return iter((1, 2))
     def keys(self): return ['kk']
     def __contains__(self, x): return True
 def _b(name, sym):
-    def f(self, o): return Sym("(%r %s %r)" % (self, sym, o))
-    def r(self, o): return Sym("(%r %s %r)" % (o, sym, self))
+    def f(self, o): return Sym("(%s %s %s)" % (_r(self), sym, _r(o)))
+    def r(self, o): return Sym("(%s %s %s)" % (_r(o), sym, _r(self)))
     setattr(Sym, "__%s__" % name, f); setattr(Sym, "__r%s__" % name, r)
 for _n, _s in [("add", "+"), ("sub", "-"), ("mul", "*"), ("matmul", "@"), ("truediv", "/"), ("floordiv", "//"), ("mod", "%"),
                ("pow", "**"), ("lshift", "<<"), ("rshift", ">>"), ("and", "&"), ("or", "|"), ("xor", "^")]:
     _b(_n, _s)
-for _n, _s in [("lt", "<"), ("le", "<="), ("gt", ">"), ("ge", ">="), ("eq", "=="), ("ne", "!=")]:
-    setattr(Sym, "__%s__" % _n, (lambda s: lambda self, o: Sym("(%r %s %r)" % (self, s, o)))(_s))
+for _n, _s in [("lt", "<"), ("le", "<="), ("gt", ">"), ("ge", ">=")]:
+    setattr(Sym, "__%s__" % _n, (lambda s: lambda self, o: Sym("(%s %s %s)" % (_r(self), s, _r(o))))(_s))
+# == / != are each other's negation and agree with identity (what `in` and its compiled forms rely on)
+Sym.__eq__ = lambda self, o: Sym("(%s == %s)" % (_r(self), _r(o)), o is self)
+Sym.__ne__ = lambda self, o: Sym("(%s != %s)" % (_r(self), _r(o)), o is not self)
 for _n, _s in [("neg", "-"), ("pos", "+"), ("invert", "~")]:
     setattr(Sym, "__%s__" % _n, (lambda s: lambda self: Sym("(%s%r)" % (s, self)))(_s))
 K, L, M = Sym("K"), Sym("L"), Sym("M")
 
 def canon(v, depth=0):
     """A JSON-able image of a default value (no addresses)."""
-    if isinstance(v, Sym): return ["sym", v.s]
+    if isinstance(v, Sym): return ["sym", v.s, v.truth]
     t = type(v).__name__
     if depth < 4:
         if type(v) in (tuple, list): return [t, [canon(x, depth + 1) for x in v]]
